@@ -294,7 +294,20 @@ impl Interp {
                         let v = sm::tsc(&mc.receiver);
                         let a = sm::tsc(&mc.args[0]);
                         let a_name = a.trim_start_matches('*').to_string();
-                        let proj = names.get(&a_name).cloned().unwrap_or_default();
+                        let mut proj = names.get(&a_name).cloned().unwrap_or_default();
+                        // push(ArgWithDefault::from_arg(arg, default)) without the intermediate local
+                        if let syn::Expr::Call(c) = &mc.args[0] {
+                            if sm::tsc(&c.func).ends_with("from_arg") && c.args.len() == 2 {
+                                let pa = names.get(&sm::tsc(&c.args[0])).cloned().unwrap_or_default();
+                                let pd = names.get(&sm::tsc(&c.args[1])).cloned().unwrap_or_default();
+                                if pa == "arg" && pd.starts_with("pad:") {
+                                    proj = format!("paired({})", &pd[4..]);
+                                } else {
+                                    self.problems.push(format!("from_arg receives ({}, {})", pa, pd));
+                                    continue;
+                                }
+                            }
+                        }
                         let proj = match proj.as_str() {
                             "arg" => "arg".to_string(),
                             "default" => "default".to_string(),
